@@ -157,6 +157,12 @@ func checkC11(c *Ctx, r *Result, tier string) {
 			func(*ssa.Function) string { return "" })
 	}
 	r.Floor("R11d", total, 20)
+
+	// R11e: identifiers keying per-invocation records are unique
+	nGen := checkIDGenerators(c, r, NewLockFlows(c), "R11e",
+		"two overlapping invocations get the same monitor / processor / index id, and the per-invocation records keyed by it (collected errors, task queues) overwrite each other",
+		func(p string) bool { return p == "engine" || p == "engine/pubsub" })
+	r.Floor("R11e", nGen, 3)
 }
 
 // checkFreshFrame: every Runtime.Eval invoked in fn gets a scope that is the result of a
